@@ -36,7 +36,7 @@ deriving Repr
 
 inductive Kind where
   | const (v : Int) | src (id : Nat) | add | acc | pass | gate | script (id : Nat) | sink
-  | thrower (id : Nat) | probe | nested (child : Nat) (tr : Bool) (outRef : Option InRef) | tryout | tryerr | errmsg
+  | thrower (id : Nat) | probe | nested (child : Nat) (tr : Bool) (outRef : Option InRef) | tryout | tryerr | errmsg | errmsgv (v : Bool)
   | fbsrc (init : Option Int) | fbsink (srcIdx : Nat)
 deriving Repr
 
@@ -338,6 +338,9 @@ def userEval (p : CProg) : Nat → Nat → Nat → Time → St → UserRes
       else { st := s }
     | .errmsg =>
       let s1 := s.logf s!"X {lbl} {t} {((s.node a.inst a.idx).err).getD ""}"
+      { st := writeOut p s1 inst idx .main 1 "" t }
+    | .errmsgv v =>   -- explicit ErrorCaptureOptions: `v` = the back trace carries captured input values
+      let s1 := s.logf s!"X {lbl} {t} {((s.node a.inst a.idx).err).getD ""} v={if v then 1 else 0}"
       { st := writeOut p s1 inst idx .main 1 "" t }
     | .fbsrc _ =>
       let n := s.node inst idx
